@@ -56,7 +56,7 @@ def register_match_fields(table: dict[str, list[str]]) -> None:
 class PyEval:
     MAX_PATHS = 4000
 
-    def __init__(self, match_fields=None, resolver=None, max_inline: int = 3):
+    def __init__(self, match_fields=None, resolver=None, max_inline: int = 3, unroll_literal_loops: bool = False):
         # match_fields(class name) -> list of positional field names for `case C(a, b)` patterns
         self.match_fields = match_fields or DEFAULT_MATCH_FIELDS
         # resolver(call node, env, evaluator) -> (FunctionDef, value bound to its first parameter or None) | None.
@@ -65,6 +65,10 @@ class PyEval:
         self.resolver = resolver
         self.max_inline = max_inline
         self._inlining: list = []
+        self._loop_stack: list = []
+        # opt-in: `for x in (a, b): body` over a display of at most 8 elements (also a comprehension over range(<small constant>)) is
+        # evaluated as body[x:=a]; body[x:=b] on the value level (break / continue / return keep their meaning)
+        self.unroll_literal_loops = unroll_literal_loops
 
     def _inline_call(self, call: ast.Call, p: PPath):
         """-> [(path, value)] (value None for a raising path) or None if the call is not inlined"""
@@ -77,8 +81,10 @@ class PyEval:
         if hit is None:
             return None
         fn, selfval = hit
-        if any(f is fn for f in self._inlining) or fn.args.vararg or fn.args.kwarg:
+        if any(f is fn for f in self._inlining) or fn.args.kwarg:
             return None
+        if any(isinstance(n, (ast.Yield, ast.YieldFrom)) for n in ast.walk(fn)):
+            return None                      # a generator function: the call makes an iterator, its body runs later
         ev: list = []
         argv = []
         for a in call.args:
@@ -100,8 +106,11 @@ class PyEval:
                 return None
             cenv[params[0].arg] = selfval
             params = params[1:]
-        if len(argv) > len(params):
+        if len(argv) > len(params) and not fn.args.vararg:
             return None
+        if fn.args.vararg:
+            # `def h(self, a, *rest)`: rest is the tuple of the surplus positional arguments
+            cenv[fn.args.vararg.arg] = ('tuple', tuple(argv[len(params):]))
         defaults = {}
         if fn.args.defaults:
             for a, d in zip(allpos[-len(fn.args.defaults):], fn.args.defaults):
@@ -152,7 +161,38 @@ class PyEval:
         out = self._block(fn.body, [PPath(env=e)])
         if len(out) > self.MAX_PATHS:
             raise Decline('too many paths')
+        for q in out:
+            self._derive_isinstance(q)
         return out
+
+    @staticmethod
+    def _derive_isinstance(q: PPath) -> None:
+        """what a test against a tuple of classes says about the single classes: `not isinstance(x, (A, B))` is `not isinstance(x, A)`
+        and `not isinstance(x, B)`; `isinstance(x, (A, B))` with `not isinstance(x, A)` is `isinstance(x, B)`.  The derived
+        conditions are appended (a guard clause followed by a two-way split then reads like the three-way chain)."""
+        ISI = ('name', 'isinstance')
+        have = {}
+        for c, b in q.conds:
+            if c[0] == 'call' and c[1] == ISI and len(c[2]) == 2:
+                try:
+                    have[c] = b
+                except TypeError:
+                    return
+        for c, b in list(have.items()):
+            if c[2][1][0] != 'tuple':
+                continue
+            x, alts = c[2][0], c[2][1][1]
+            singles = [('call', ISI, (x, a), ()) for a in alts]
+            if b is False:
+                for sc in singles:
+                    if sc not in have:
+                        have[sc] = False
+                        q.conds.append((sc, False))
+            else:
+                open_ = [sc for sc in singles if have.get(sc) is not False]
+                if len(open_) == 1 and open_[0] not in have:
+                    have[open_[0]] = True
+                    q.conds.append((open_[0], True))
 
     # -- statements --------------------------------------------------------
     def _block(self, stmts, live: list[PPath]) -> list[PPath]:
@@ -176,6 +216,9 @@ class PyEval:
         """a path that assumes one symbolic value both true and false is not a path of the program (`if x: .. elif x:`)"""
         seen = {}
         for c, b in p.conds:
+            # nothing is a member of an empty display
+            if b is True and c[0] == 'cmp' and c[1] == 'in' and c[3] in (('dict', ()), ('list', ()), ('tuple', ()), ('set', ())):
+                return False
             try:
                 if seen.setdefault(c, b) != b:
                     return False
@@ -189,7 +232,108 @@ class PyEval:
         marks = [PEvent('cond', c, node=node) for c in conds]
         return PPath(p.conds + list(conds), p.events + list(events) + marks, end, dict(env if env is not None else p.env), node)
 
+    _LIST_MUTATORS = ('append', 'reverse', 'extend', 'insert', 'sort', 'clear', 'pop', 'remove', 'update')
+
+    @staticmethod
+    def _is_seq_value(v) -> bool:
+        return v[0] in ('list',) or (v[0] == 'comp' and v[1] == 'listcomp') or (v[0] == 'sub' and v[2][0] == 'slice') \
+            or (v[0] == 'call' and v[1] in (('name', 'list'), ('name', 'sorted')))
+
+    def _mutate_local_list(self, call, v, env) -> None:
+        """`xs.append(e)` / `xs.reverse()` .. on a local that holds a list built in this function: the local now denotes the new
+        contents (a display grows, a reversal is list(reversed(..))); any other in-place change makes it opaque rather than stale"""
+        if not (isinstance(call, ast.Call) and isinstance(call.func, ast.Attribute) and isinstance(call.func.value, ast.Name)
+                and call.func.attr in self._LIST_MUTATORS):
+            return
+        name = call.func.value.id
+        cur = env.get(name)
+        if isinstance(cur, tuple) and cur and call.func.attr == 'update' and len(v[2]) == 1 and not v[3] \
+                and (cur[0] == 'dict' or (cur[0] == 'comp' and cur[1] == 'dictcomp')
+                     or (cur[0] == 'call' and cur[1] == ('name', 'dict'))):
+            # d.update(m) on a local map built in this function: d now denotes {**d, **m} (later entries win, earlier positions stay)
+            env[name] = ('dict', ((('const', '**'), cur), (('const', '**'), v[2][0])))
+            return
+        if not isinstance(cur, tuple) or not cur or not self._is_seq_value(cur):
+            return
+        attr = call.func.attr
+        if attr == 'append' and cur[0] == 'list' and len(v[2]) == 1 and not v[3]:
+            env[name] = ('list', cur[1] + (v[2][0],))
+        elif attr == 'reverse' and not v[2]:
+            if cur[0] == 'list':
+                env[name] = ('list', tuple(reversed(cur[1])))
+            else:
+                env[name] = ('call', ('name', 'list'), (('call', ('name', 'reversed'), (cur,), ()),), ())
+        else:
+            env[name] = ('mutated', cur, attr, call.lineno)
+
+    _NO_HOIST = (ast.Lambda, ast.IfExp, ast.BoolOp, ast.ListComp, ast.SetComp, ast.DictComp, ast.GeneratorExp, ast.NamedExpr,
+                 ast.Await, ast.Yield, ast.YieldFrom)
+
+    def _nested_calls(self, root):
+        """calls below `root` (not root itself) that are evaluated unconditionally, innermost first, left to right"""
+        out = []
+
+        def visit(n):
+            if isinstance(n, self._NO_HOIST):
+                return
+            for ch in ast.iter_child_nodes(n):
+                visit(ch)
+            if isinstance(n, ast.Call) and n is not root:
+                out.append(n)
+        visit(root)
+        return out
+
+    def _hoist_nested(self, st, p: PPath):
+        """`f(a, [g(x)])` where g is a resolved helper: evaluated as `t = g(x); f(a, [t])` (the helper's paths fork the caller's).
+        The expressions that would have been evaluated before g are names, attributes and displays of them in the code concerned,
+        so the order of evaluation is not changed observably."""
+        if self.resolver is None or len(self._inlining) >= self.max_inline or getattr(st, 'value', None) is None:
+            return None
+        cands = self._nested_calls(st.value)
+        if not cands:
+            return None
+        env = dict(p.env)
+        for i, c in enumerate(cands):
+            if any(isinstance(a, ast.Starred) for a in c.args) or self.resolver(c, env, self) is None:
+                continue
+            inl = self._inline_call(c, p)
+            if inl is None:
+                continue
+            import copy
+            st2 = copy.deepcopy(st)
+            c2 = self._nested_calls(st2.value)[i]
+            tmp = f'__h{c.lineno}_{c.col_offset}'
+
+            class R(ast.NodeTransformer):
+                def visit_Call(self, n):
+                    if n is c2:
+                        return ast.copy_location(ast.Name(id=tmp, ctx=ast.Load()), n)
+                    return self.generic_visit(n)
+            st2.value = R().visit(st2.value)
+            out = []
+            for q, v in inl:
+                if v is None:
+                    out.append(q)
+                    continue
+                q.env[tmp] = v
+                for r in self._stmt(st2, q):
+                    r.env.pop(tmp, None)
+                    out.append(r)
+            return out
+        return None
+
     def _stmt(self, st, p: PPath) -> list[PPath]:
+        if isinstance(st, (ast.Expr, ast.Assign, ast.AnnAssign, ast.AugAssign, ast.Return)) and self.resolver is not None:
+            h = self._hoist_nested(st, p)
+            if h is not None:
+                return h
+        if isinstance(st, ast.Expr) and isinstance(st.value, (ast.Yield, ast.YieldFrom)):
+            # a generator hands a value (or every value of another iterable) to its consumer: recorded as an event
+            env = dict(p.env)
+            ev0: list = []
+            v = self.expr(st.value.value, env, ev0) if st.value.value is not None else ('const', None)
+            ev0.append(PEvent('yield' if isinstance(st.value, ast.Yield) else 'yieldfrom', v, node=st))
+            return [self._fork(p, events=ev0, env=env)]
         if isinstance(st, ast.Expr):
             if isinstance(st.value, ast.Constant):
                 return [p]
@@ -202,12 +346,20 @@ class PyEval:
             v = self.expr(st.value, env, ev)
             if v[0] == 'call' or v[0] == 'await':
                 ev.append(PEvent('call', v, node=st))
+            self._mutate_local_list(st.value, v, env)
             return [self._fork(p, events=ev, env=env)]
         if isinstance(st, ast.Pass):
             return [p]
         if isinstance(st, (ast.Assign, ast.AnnAssign)):
             if isinstance(st, ast.AnnAssign) and st.value is None:
                 return [p]
+            if isinstance(st.value, ast.IfExp):
+                # `x = a if c else b` is `if c: x = a` / `else: x = b` (a later test of c on the same path then agrees with the choice)
+                import copy
+                s1, s2 = copy.copy(st), copy.copy(st)
+                s1.value, s2.value = st.value.body, st.value.orelse
+                iff = ast.If(test=st.value.test, body=[s1], orelse=[s2])
+                return self._stmt(ast.copy_location(iff, st), p)
             if isinstance(st.value, ast.Call):
                 inl = self._inline_call(st.value, p)
                 if inl is not None:
@@ -336,15 +488,42 @@ class PyEval:
                 return out
         env = dict(p.env)
         ev: list = []
+        if isinstance(st, ast.For) and self.unroll_literal_loops:
+            it0 = self._small_display(self.expr(st.iter, dict(env), []))
+            if it0 is not None:
+                live, done, broke = [p], [], []
+                for el in it0:
+                    nxt = []
+                    for q in live:
+                        qenv, qev = dict(q.env), []
+                        self._bind(st.target, el, qenv, qev, st)
+                        for bp in self._block(st.body, [self._fork(q, events=qev, env=qenv)]):
+                            if bp.end[0] in ('fall', 'continue'):
+                                nxt.append(PPath(bp.conds, bp.events, ('fall',), bp.env, bp.node))
+                            elif bp.end[0] == 'break':
+                                broke.append(PPath(bp.conds, bp.events, ('fall',), bp.env, bp.node))
+                            else:
+                                done.append(bp)
+                    live = nxt
+                    if len(live) + len(done) > self.MAX_PATHS:
+                        raise Decline('too many paths')
+                tail = self._block(st.orelse, live) if st.orelse and live else live
+                return done + tail + broke
         if isinstance(st, ast.For):
             it = self.expr(st.iter, env, ev)
             benv = dict(env)
-            self._bind(st.target, ('elem', it), benv, ev, st)
+            # a loop nested in a loop over the same collection ranges over its own element: elem(l), elem'(l)
+            dup = sum(1 for x in self._loop_stack if x == it)
+            self._bind(st.target, ('elem', it) if not dup else ('elem', it, dup), benv, ev, st)
             head = ('for', ast.unparse(st.target), it)
         else:
             benv = dict(env)
             head = ('while', self.expr(st.test, benv, ev))
-        body_paths = self._block(st.body, [PPath(env=benv)])
+        self._loop_stack.append(it if isinstance(st, ast.For) else None)
+        try:
+            body_paths = self._block(st.body, [PPath(env=benv)])
+        finally:
+            self._loop_stack.pop()
         assigned = {n.id for s in st.body for n in ast.walk(s) if isinstance(n, ast.Name) and isinstance(n.ctx, ast.Store)}
         if isinstance(st, ast.For):
             assigned |= {n.id for n in ast.walk(st.target) if isinstance(n, ast.Name)}
@@ -356,12 +535,95 @@ class PyEval:
                                  bp.end, bp.env, bp.node))
         for n in assigned:
             env[n] = ('loopvar', n, st.lineno)
+        self._filled_lists(st, env, body_paths, it if isinstance(st, ast.For) else None)
         ev.append(PEvent('loop', head, extra=body_paths, node=st))
         cont = self._fork(p, events=ev, env=env)
         out.extend(self._block(st.orelse, [cont]) if st.orelse else [cont])
         return out
 
+    @staticmethod
+    def _small_display(v):
+        """elements of a display of at most 8 plain elements, or of a comprehension over range(<constant <= 8>) without filter"""
+        if v[0] in ('tuple', 'list') and 1 <= len(v[1]) <= 8 and not any(x[0] == 'star' for x in v[1]):
+            return list(v[1])
+        if v[0] == 'comp' and v[1] in ('gen', 'listcomp') and len(v[3]) == 1 and not v[3][0][2] and ',' not in v[3][0][0]:
+            it = v[3][0][1]
+            if it[0] == 'call' and it[1] == ('name', 'range') and len(it[2]) == 1 and it[2][0][0] == 'const' and isinstance(it[2][0][1], int) \
+                    and 1 <= it[2][0][1] <= 8 and not it[3]:
+                var = v[3][0][0].strip()
+
+                def inst(x, k):
+                    if x == ('bound', var):
+                        return ('const', k)
+                    return tuple(inst(y, k) if isinstance(y, tuple) else y for y in x) if isinstance(x, tuple) else x
+
+                def fold(x):
+                    """(a, b)[0] style subscripts of displays by a constant"""
+                    if not isinstance(x, tuple) or not x:
+                        return x
+                    x = tuple(fold(y) if isinstance(y, tuple) else y for y in x)
+                    if x[0] == 'sub' and x[2][0] == 'const' and isinstance(x[2][1], int) and x[1][0] in ('tuple', 'list') \
+                            and -len(x[1][1]) <= x[2][1] < len(x[1][1]):
+                        return x[1][1][x[2][1]]
+                    return x
+                return [fold(inst(v[2], k)) for k in range(it[2][0][1])]
+        return None
+
+    def _filled_lists(self, st, env, body_paths, it) -> None:
+        """locals holding a list that the loop body changes in place: `xs = []; for t in IT: xs.append(E)` with exactly one append of
+        the same E on every path that does not raise is the comprehension [E for t in IT]; anything else makes the local opaque"""
+        touched = set()
+        for s_ in st.body:
+            for n in ast.walk(s_):
+                if isinstance(n, ast.Call) and isinstance(n.func, ast.Attribute) and isinstance(n.func.value, ast.Name) \
+                        and n.func.attr in self._LIST_MUTATORS:
+                    touched.add(n.func.value.id)
+        for name in sorted(touched):
+            cur = env.get(name)
+            if not isinstance(cur, tuple) or not cur or not self._is_seq_value(cur):
+                continue
+            new = ('mutated', cur, 'loop', st.lineno)
+            live = [bp for bp in body_paths if bp.end[0] != 'raise']
+            if isinstance(st, ast.For) and cur == ('list', ()) and live and all(bp.end[0] in ('fall', 'continue') for bp in live):
+                elems = []
+                for bp in live:
+                    muts = [e.value for e in bp.events if e.kind == 'ecall' and e.value[1][0] == 'attr' and e.value[1][2] in self._LIST_MUTATORS
+                            and e.value[1][1][0] == 'list']
+                    if len(muts) == 1 and muts[0][1] == ('attr', ('list', ()), 'append') and len(muts[0][2]) == 1 and not muts[0][3]:
+                        elems.append(muts[0][2][0])
+                    else:
+                        elems = None
+                        break
+                if elems and all(x == elems[0] for x in elems):
+                    dup = sum(1 for x in self._loop_stack if x == it)
+                    elem = ('elem', it) if not dup else ('elem', it, dup)
+                    table = {}
+                    if isinstance(st.target, ast.Name):
+                        table[elem] = ('bound', st.target.id)
+                    elif isinstance(st.target, (ast.Tuple, ast.List)) and all(isinstance(x, ast.Name) for x in st.target.elts):
+                        for i, x in enumerate(st.target.elts):
+                            table[('item', elem, i)] = ('bound', x.id)
+                    if table:
+                        def sub(v):
+                            if not isinstance(v, tuple) or not v:
+                                return v
+                            if v in table:
+                                return table[v]
+                            return tuple(sub(y) if isinstance(y, tuple) else y for y in v)
+                        new = ('comp', 'listcomp', sub(elems[0]), ((ast.unparse(st.target), it, ()),))
+            env[name] = new
+
     def _match(self, st: ast.Match, p: PPath) -> list[PPath]:
+        # `case A(x) | B(x): body` with sub-patterns is `case A(x): body` followed by `case B(x): body` (alternatives are tried in order)
+        if any(isinstance(c.pattern, ast.MatchOr) and not all(isinstance(sp, ast.MatchClass) and not sp.patterns and not sp.kwd_patterns
+                                                              for sp in c.pattern.patterns) for c in st.cases):
+            cases = []
+            for c in st.cases:
+                if isinstance(c.pattern, ast.MatchOr):
+                    cases.extend(ast.match_case(pattern=alt, guard=c.guard, body=c.body) for alt in c.pattern.patterns)
+                else:
+                    cases.append(c)
+            st = ast.copy_location(ast.Match(subject=st.subject, cases=cases), st)
         env0 = dict(p.env)
         ev: list = []
         subj = self.expr(st.subject, env0, ev)
@@ -374,7 +636,9 @@ class PyEval:
             pat = case.pattern
             if isinstance(pat, ast.MatchClass):
                 cname = ast.unparse(pat.cls)
-                atom = ('call', ('name', 'isinstance'), (subj, ('name', cname)), ())          # the atom `isinstance(subj, C)` produces
+                # the atom `isinstance(subj, C)` produces; C is evaluated like any expression (`case cls():` with a parameter)
+                cval = self.expr(pat.cls, dict(env), []) if isinstance(pat.cls, ast.Name) and pat.cls.id in env else ('name', cname)
+                atom = ('call', ('name', 'isinstance'), (subj, cval), ())
                 conds.append((atom, True))
                 names = self.match_fields(cname)
                 for i, sp in enumerate(pat.patterns):
@@ -389,6 +653,12 @@ class PyEval:
                         env[sp.name] = ('attr', subj, kw)
                     else:
                         raise Decline('nested match pattern')
+                neg.append((atom, False))
+            elif isinstance(pat, ast.MatchOr) and all(isinstance(sp, ast.MatchClass) and not sp.patterns and not sp.kwd_patterns
+                                                       for sp in pat.patterns):
+                # `case A() | B():` is isinstance(subj, (A, B))
+                atom = ('call', ('name', 'isinstance'), (subj, ('tuple', tuple(('name', ast.unparse(sp.cls)) for sp in pat.patterns))), ())
+                conds.append((atom, True))
                 neg.append((atom, False))
             elif isinstance(pat, ast.MatchAs) and pat.pattern is None:
                 if pat.name:
@@ -565,6 +835,27 @@ class PyEval:
                     if y[0] == 'call':
                         ev.append(PEvent('ecall', y, node=e))
                 return v
+            if f in (('name', 'all'), ('name', 'any')) and len(args) == 1 and not kw and args[0][0] == 'comp' and args[0][1] in ('gen', 'listcomp') \
+                    and len(args[0][3]) == 1 and not args[0][3][0][2] and args[0][3][0][1][0] in ('tuple', 'list') \
+                    and ',' not in args[0][3][0][0] and not any(x[0] == 'star' for x in args[0][3][0][1][1]):
+                # all(f(x) for x in (a, b)) is f(a) and f(b) (same left-to-right short circuit); any(..) is the `or`
+                var, elems = args[0][3][0][0].strip(), args[0][3][0][1][1]
+
+                def inst(v, val):
+                    if v == ('bound', var):
+                        return val
+                    return tuple(inst(y, val) if isinstance(y, tuple) else y for y in v) if isinstance(v, tuple) else v
+                parts = tuple(inst(args[0][2], el) for el in elems)
+                if not parts:
+                    return ('const', f[1] == 'all')
+                if len(parts) == 1:
+                    return parts[0]
+                return ('boolop', 'and' if f[1] == 'all' else 'or', parts)
+            if f == ('name', 'getattr') and len(args) == 2 and not kw and args[1][0] == 'const' and isinstance(args[1][1], str) \
+                    and args[1][1].isidentifier():
+                # getattr(x, 'name') with a literal name is the attribute x.name
+                key = ('attr', args[0], args[1][1])
+                return env.get(key, key)
             v = ('call', f, tuple(args), kw)
             ev.append(PEvent('ecall', v, node=e))      # every call, in evaluation order
             return v
@@ -687,31 +978,72 @@ class _Subst(ast.NodeTransformer):
         return n
 
 
-def unroll_constant_loops(fn: ast.FunctionDef) -> ast.FunctionDef:
+def unroll_constant_loops(fn: ast.FunctionDef, consts=None) -> ast.FunctionDef:
     """`for c in (A, B, C): body` over a literal tuple / list of names becomes body[c:=A]; body[c:=B]; body[c:=C] (a copy of the
-    function is returned; the repository's tree is left alone).  Only loops without else / break / continue whose variable is not
-    assigned in the body are unrolled; `return` in the body keeps its meaning."""
+    function is returned; the repository's tree is left alone).  Also `for a, b in ((A, 'x'), (B, 'y')): body` (a table of rows), and
+    an iterable that `consts(expr)` resolves to such a literal (a class-level or module-level table).  Only loops without else /
+    break / continue whose variables are not assigned in the body are unrolled; `return` in the body keeps its meaning."""
+    def atom(e):
+        return isinstance(e, (ast.Name, ast.Attribute, ast.Constant))
+
     class U(ast.NodeTransformer):
         def visit_For(self, n):
             self.generic_visit(n)
-            if n.orelse or not isinstance(n.target, ast.Name) or not isinstance(n.iter, (ast.Tuple, ast.List)):
+            it = n.iter
+            if not isinstance(it, (ast.Tuple, ast.List)) and consts is not None:
+                it = consts(it)
+            if n.orelse or not isinstance(it, (ast.Tuple, ast.List)) or not it.elts:
                 return n
-            if not n.iter.elts or not all(isinstance(e, (ast.Name, ast.Attribute, ast.Constant)) for e in n.iter.elts):
+            if isinstance(n.target, ast.Name):
+                names = [n.target.id]
+                if not all(atom(e) for e in it.elts):
+                    return n
+                rows = [[e] for e in it.elts]
+            elif isinstance(n.target, (ast.Tuple, ast.List)) and all(isinstance(t, ast.Name) for t in n.target.elts):
+                names = [t.id for t in n.target.elts]
+                if not all(isinstance(e, (ast.Tuple, ast.List)) and len(e.elts) == len(names) and all(atom(x) for x in e.elts) for e in it.elts):
+                    return n
+                rows = [list(e.elts) for e in it.elts]
+            else:
                 return n
             for st in n.body:
                 for m in ast.walk(st):
                     if isinstance(m, (ast.Break, ast.Continue)):
                         return n
-                    if isinstance(m, ast.Name) and m.id == n.target.id and isinstance(m.ctx, (ast.Store, ast.Del)):
+                    if isinstance(m, ast.Name) and m.id in names and isinstance(m.ctx, (ast.Store, ast.Del)):
                         return n
             out = []
-            for e in n.iter.elts:
+            for row in rows:
                 for st in n.body:
-                    out.append(_Subst(n.target.id, e).visit(copy.deepcopy(st)))
+                    st2 = copy.deepcopy(st)
+                    for nm, e in zip(names, row):
+                        st2 = _Subst(nm, e).visit(st2)
+                    out.append(st2)
             return out
     g = U().visit(copy.deepcopy(fn))
     ast.fix_missing_locations(g)
     return g
+
+
+def class_table_resolver(ci, module_tree=None):
+    """consts() for unroll_constant_loops: `self.X` / `cls.X` / `<Class>.X` where X is assigned once in the class body to a literal
+    tuple / list, and bare names assigned once at module level"""
+    def lit(v):
+        return v if isinstance(v, (ast.Tuple, ast.List)) else None
+
+    def consts(e):
+        if isinstance(e, ast.Attribute) and isinstance(e.value, ast.Name) and e.value.id in ('self', 'cls', ci.name):
+            defs = [n for n in ci.node.body if isinstance(n, (ast.Assign, ast.AnnAssign)) and n.value is not None
+                    and isinstance(n.targets[0] if isinstance(n, ast.Assign) else n.target, ast.Name)
+                    and (n.targets[0] if isinstance(n, ast.Assign) else n.target).id == e.attr]
+            return lit(defs[0].value) if len(defs) == 1 else None
+        if isinstance(e, ast.Name) and module_tree is not None:
+            defs = [n for n in module_tree.body if isinstance(n, (ast.Assign, ast.AnnAssign)) and n.value is not None
+                    and isinstance(n.targets[0] if isinstance(n, ast.Assign) else n.target, ast.Name)
+                    and (n.targets[0] if isinstance(n, ast.Assign) else n.target).id == e.id]
+            return lit(defs[0].value) if len(defs) == 1 else None
+        return None
+    return consts
 
 
 def show(v) -> str:
@@ -746,7 +1078,7 @@ def show(v) -> str:
     if k == 'comp':
         return f'{v[1]}<{show(v[2])} for {"; ".join(g[0] + " in " + show(g[1]) for g in v[3])}>'
     if k == 'elem':
-        return f'elem({show(v[1])})'
+        return f'elem{chr(39) * (v[2] if len(v) > 2 else 0)}({show(v[1])})'
     if k == 'component':
         return f'{show(v[1])}.{v[2]}.{v[3]}'
     if k == 'binop':
